@@ -103,7 +103,7 @@ Section Reach.
       intros Hw. destruct e as [|x]; cbn [keyword_cands].
       - apply ok_ret. constructor; [apply at_cursor_ok|constructor].
       - cbn in Hw. open_c x Hw r vt n Hn. destruct n; try apply ok_nil.
-        destruct steps as [|[rr| | | |] [|]]; try apply ok_nil.
+        destruct steps as [|[rr| | | | |] [|]]; try apply ok_nil.
         inversion Hn as [? ? ? ? Hlen Hroot| | | | | | | | | | | | |]; subst.
         specialize (Hroot rr [] eq_refl).
         destruct (_ || _) eqn:Eg; [apply ok_nil|].
@@ -327,7 +327,7 @@ Section Reach.
       intros Hw. destruct e as [|x]; cbn [fn_items].
       - apply ok_ret. apply fn_cands_ok. unfold P, pb; lia.
       - cbn in Hw. open_c x Hw r vt n Hn. destruct n; try apply ok_nil; try apply ok_skip.
-        destruct steps as [|[rr| | | |] [|]]; try apply ok_nil.
+        destruct steps as [|[rr| | | | |] [|]]; try apply ok_nil.
         inversion Hn as [? ? ? ? Hlen Hroot| | | | | | | | | | | | |]; subst.
         specialize (Hroot rr [] eq_refl).
         destruct (_ || _) eqn:Eg; [apply ok_nil|].
@@ -700,7 +700,7 @@ Section Keywords.
       { intros n s t sb eb _. exists kw. split; [constructor|]. repeat eexists. }
       destruct e as [|x]; cbn [keyword_cands].
       - apply kw_ret. constructor; [apply Hk|constructor].
-      - destruct (se_node x); try apply kw_nil. destruct steps as [|[rr| | | |] [|]]; try apply kw_nil.
+      - destruct (se_node x); try apply kw_nil. destruct steps as [|[rr| | | | |] [|]]; try apply kw_nil.
         destruct (_ || _); [apply kw_nil|]. destruct (bytes_prefix _ _); [|apply kw_nil].
         apply kw_ret. constructor; [apply Hk|constructor].
     Qed.
@@ -864,14 +864,14 @@ Section Keywords.
     Proof.
       destruct e as [|x]; cbn [fn_items]; [apply kw_ret, kw_other, fn_cands_other|].
       destruct (se_node x); try apply kw_nil; try apply kw_skip.
-      destruct steps as [|[rr| | | |] [|]]; try apply kw_nil.
+      destruct steps as [|[rr| | | | |] [|]]; try apply kw_nil.
       destruct (_ || _); [apply kw_nil|]. apply kw_ret, kw_other, fn_cands_other.
     Qed.
 
     Lemma index_kw c e : vres_kw c (index_cands empties rec e).
     Proof.
       destruct e as [|x]; cbn [index_cands]; [apply kw_nil|]. destruct (se_node x); try apply kw_nil; [|apply rec_any].
-      destruct (rev steps) as [|[| | | |] [|]]; try apply kw_nil. apply rec_any.
+      destruct (rev steps) as [|[| | | | |] [|]]; try apply kw_nil. apply rec_any.
     Qed.
 
     Lemma leaf_kw c t skip e : vres_kw c (leaf_cands file empties vals fname refs fns p rec t skip e).
